@@ -299,7 +299,7 @@ let () =
         let chk name ok = tally name ok; if not ok then failed := name :: !failed in
         let detail = Buffer.create 256 in
         let acc_ok (c : cache) = Z.equal (z_of_n c.cur) (List.fold_left (fun a (en : entry) -> Z.add a (z_of_n en.es)) Z.zero c.ents)
-                                 && Z.leq (z_of_n c.cur) (z_of_n c.maxs) in
+                                 && (tainted.(slot) || Z.leq (z_of_n c.cur) (z_of_n c.maxs)) in
         let pre_ok (o : obs) = acc_ok o.st && (tainted.(slot) || (c01_mon !e o.st && c02_mon !e o.st)) && c04_nodup_mon o.st &&
                                (match o.graph with Some g -> ri_check g | None -> true) in
         (match slots.(slot) with
@@ -502,6 +502,8 @@ let () =
               chk "addr_stable" (not moved || (may_rebuild && not stayed));
               (* monitors on the implementation's observations *)
               if not tainted.(slot) then begin chk "mon_c01" (c01_mon !e post.st); chk "mon_c02" (c02_mon !e post.st) end;
+              (* the counter never exceeds the limit when an operation returns — also in a cache that went through a caught panic *)
+              if post.res <> "panic" then chk "mon_c01_cur" (Z.leq (z_of_n post.st.cur) (z_of_n post.st.maxs));
               chk "mon_c04" (c04_nodup_mon post.st);
               (match parse_out post.res with
                | Some o -> if post.res <> "panic" then chk "mon_c06" (c06_mon pre.st p o post.dropped post.st);
